@@ -125,6 +125,7 @@ def run_proofreader_options(tex, language, disable, enable,
 
             for m in matches:
                 m['offset'] = json_get(m, 'offset', int) + len(plain_tot)
+                json_get(m, 'length', int)  # used by map_match_position()
             matches_tot += matches
             plain_tot += plain
             charmap_tot += charmap
